@@ -2,7 +2,7 @@
    interpretation, concrete environments satisfying the hypotheses of each theorem, and concrete runs
    of the executable models. *)
 From Coq Require Import QArith List Bool PArith Arith.
-From PV Require Import Base.PyData Base.Expr Base.Interp Base.Stmts C09.Model C09.Proofs C09.ProofsExec.
+From PV Require Import Base.PyData Base.Expr Base.Interp Base.Stmts C09.Model C09.Proofs C09.ProofsExec C09.ProofsExt.
 Import ListNotations.
 Local Open Scope Q_scope.
 
@@ -166,3 +166,73 @@ Example surgery_grouped_example :
         Assign xCL (Mul (Mul (Sym xCL) (Sym xCLAPGR)) (Sym xCLWGT));
         Assign xV (Sym xCL)].
 Proof. split; vm_compute; reflexivity. Qed.
+
+(* ---- IOV: two levels, one requested eta; hypotheses of add_iov_sound / remove_add_iov and a non-trivial run ---- *)
+Definition xOCC : id := 220%positive. Definition xIOV1 : id := 221%positive. Definition xETAI1 : id := 222%positive.
+Definition xE11 : id := 223%positive. Definition xE12 : id := 224%positive.
+Definition ex_items : list iov_item :=
+  [{| ie_eta := xETA; ie_iov := xIOV1; ie_etai := xETAI1; ie_levels := [(0, xE11); (1, xE12)] |}].
+Definition ex_prog_add : list stmt :=   (* additive eta so that values stay rational under std_fi *)
+  [Assign xTVCL (Sym xT); Assign xCL (Add (Sym xTVCL) (Sym xETA)); Assign xV (Sym xCL)].
+Example add_iov_example :
+  add_iov xOCC ex_items ex_prog_add =
+  [Assign xIOV1 (Num 0);
+   Assign xIOV1 (PwCons (CRel OEq (Num 0) (Sym xOCC)) (Sym xE11) (PwCons (CRel OEq (Num 1) (Sym xOCC)) (Sym xE12) PwNil));
+   Assign xETAI1 (Add (Sym xETA) (Sym xIOV1));
+   Assign xTVCL (Sym xT); Assign xCL (Add (Sym xTVCL) (Sym xETAI1)); Assign xV (Sym xCL)].
+Proof. vm_compute. reflexivity. Qed.
+Example add_iov_hyps :
+  NoDup (item_fresh ex_items) /\ inputs_ok xOCC ex_items (item_fresh ex_items) /\
+  ~ In xETA (item_fresh ex_items) /\ ~ In xETA (flat_map defs ex_prog_add) /\
+  (* eta = 5, occasion 1 with IOV eta 7: V = 2 + (5 + 7) = 14 on both sides *)
+  run [(xT, 2); (xETA, 5); (xOCC, 1); (xE11, 3); (xE12, 7)] (add_iov xOCC ex_items ex_prog_add) xV = Some (14 # 1) /\
+  exec std_fi std_ode (shift xOCC ex_items (env_of [(xT, 2); (xETA, 5); (xOCC, 1); (xE11, 3); (xE12, 7)])
+                         (env_of [(xT, 2); (xETA, 5); (xOCC, 1); (xE11, 3); (xE12, 7)])) ex_prog_add xV = Some (14 # 1) /\
+  run [(xT, 2); (xETA, 5); (xOCC, 1); (xE11, 3); (xE12, 7)] (remove_iov [xE11; xE12] (add_iov xOCC ex_items ex_prog_add)) xV = Some (7 # 1).
+Proof.
+  repeat split; try (vm_compute; reflexivity).
+  - repeat constructor; cbn; intuition discriminate.
+  - cbn. intuition discriminate.
+  - cbn. intros it [<-|[]] e [<-|[<-|[]]]; cbn; intuition discriminate.
+  - cbn. intuition discriminate.
+  - cbn. intuition discriminate.
+Qed.
+
+(* ---- allometry: hypotheses of allometry_program_neutral; away from the reference the parameter changes ---- *)
+Definition xALLO : id := 225%positive.
+Example allometry_example :
+  add_allometry doc_templates xWGT 70 [(xCL, xALLO)] ex_prog_add =
+  [Assign xTVCL (Sym xT); Assign xCL (Add (Sym xTVCL) (Sym xETA));
+   Assign xCL (Mul (Sym xCL) (Fn2 F_POW (Div (Sym xWGT) (Num 70)) (Sym xALLO))); Assign xV (Sym xCL)] /\
+  ~ In xWGT (flat_map defs ex_prog_add) /\ ~ In xALLO (flat_map defs ex_prog_add) /\
+  run [(xT, 2); (xETA, 1); (xWGT, 140); (xALLO, 2)] (add_allometry doc_templates xWGT 70 [(xCL, xALLO)] ex_prog_add) xV = Some (12 # 1) /\
+  run [(xT, 2); (xETA, 1); (xWGT, 70); (xALLO, 2)] (add_allometry doc_templates xWGT 70 [(xCL, xALLO)] ex_prog_add) xV = Some (3 # 1).
+Proof. repeat split; try (vm_compute; reflexivity); cbn; intuition discriminate. Qed.
+
+(* ---- BLQ (M4): Y = F + F*EPS; above the LLOQ the model value of Y is the original one, F_FLAG = 0 ---- *)
+Definition xY : id := 230%positive. Definition xF : id := 231%positive. Definition xEPS : id := 232%positive.
+Definition xSD : id := 233%positive. Definition xLLOQ : id := 234%positive. Definition xFFLAG : id := 235%positive.
+Definition xCUMD : id := 236%positive. Definition xCUMDZ : id := 237%positive. Definition xDV : id := 238%positive.
+Definition ex_blq_prog : list stmt := [Assign xF (Sym xT); Assign xY (Add (Sym xF) (Mul (Sym xF) (Sym xEPS)))].
+Definition ex_blq_args : blq_args :=
+  {| b_y := xY; b_sd_stmt := Assign xSD (Sym xF); b_sd := xSD; b_lloq_stmt := Some (Assign xLLOQ (Num (1 # 10)));
+     b_level := Sym xLLOQ; b_above := CRel OGe (Sym xDV) (Sym xLLOQ);
+     b_fflag := xFFLAG; b_cumd := xCUMD; b_cumdz := xCUMDZ; b_epsilons := [xEPS]; b_m4 := true |}.
+Example blq_example :
+  match transform_blq ex_blq_args ex_blq_prog with
+  | Some l' => length l' = 7%nat /\
+      run [(xT, 4); (xEPS, 1); (xDV, 3)] l' xFFLAG = Some 0 /\
+      run [(xT, 4); (xEPS, 1); (xDV, 3)] l' xY = run [(xT, 4); (xEPS, 1); (xDV, 3)] ex_blq_prog xY /\
+      run [(xT, 4); (xEPS, 1); (xDV, 0)] l' xFFLAG = Some 1
+  | None => False
+  end /\ ~ In xY (blq_fresh ex_blq_args).
+Proof. split; [vm_compute; repeat split; reflexivity | cbn; intuition discriminate]. Qed.
+
+(* ---- transit rates: three detected compartments with rates 5/MDT (one through a rate symbol) become 3/MDT ---- *)
+Definition xK12 : id := 240%positive.
+Example update_numerators_example :
+  rates_after_update [{| tr_numer := NInt 5; tr_denom := Sym s_mdt |}; {| tr_numer := NSym xK12; tr_denom := Num 1 |};
+                      {| tr_numer := NInt 5; tr_denom := Sym s_mdt |}] [(xK12, (NInt 5, Sym s_mdt))]
+  = ([{| tr_numer := NInt 3; tr_denom := Sym s_mdt |}; {| tr_numer := NSym xK12; tr_denom := Num 1 |};
+      {| tr_numer := NInt 3; tr_denom := Sym s_mdt |}], [(xK12, (NInt 3, Sym s_mdt))]).
+Proof. vm_compute. reflexivity. Qed.
